@@ -221,23 +221,39 @@ def leg_faultpoints(base_seed, index, opts):
         keep = set(range(1, min(nf_ref, npt + 3) + 1)) | set(range(npt + 3, nf_ref + 1, max(1, (nf_ref - npt) // 10))) | {nf_ref - 1, nf_ref}
         ks = sorted(k for k in keep if 1 <= k <= nf_ref)
     plans = []
+    kinds = opts.get('kinds', FAULT_KINDS)
     for k in ks:
-        for kind in FAULT_KINDS:
+        for kind in kinds:
             if kind == 'raise':
-                plans.append([{'at': k, 'kind': kind, 'comp': 'all', 'scope': 'once'}])
+                # the harness' own class at every k; the classes dfols catches somewhere rotate over k in quick tier, all of them in thorough
+                excs = sim.EXC_KINDS if tier == 'thorough' else ['InjectedFault', sim.EXC_KINDS[1 + k % 3], sim.EXC_KINDS[1 + (k + 1) % 3]]
+                for exc in excs:
+                    plans.append([{'at': k, 'kind': kind, 'comp': 'all', 'scope': 'once', 'exc': exc}])
             else:
                 for comp in ('one', 'all'):
                     plans.append([{'at': k, 'kind': kind, 'comp': comp, 'scope': 'once'}])
     npt = H.eff['npt']
     for k in sorted(set(kk for kk in (1, npt, npt + 1, max(1, nf_ref // 2), nf_ref) if 1 <= kk <= nf_ref)):
         for kind in ('nan', '+inf', '1e200'):
-            plans.append([{'at': k, 'kind': kind, 'comp': 'all', 'scope': 'from'}])
+            if kind in kinds:
+                plans.append([{'at': k, 'kind': kind, 'comp': 'all', 'scope': 'from'}])
+    # "fault, then crash": the budget ends d evaluations after the bad value (the run is cut while the bad value is still the
+    # freshest thing the bookkeeping has seen)
+    cuts = {}
+    for d in opts.get('cut_after', ()):
+        for k in ks:
+            for kind in [kd for kd in ('nan', '+inf') if kd in kinds]:
+                plans.append([{'at': k, 'kind': kind, 'comp': 'all', 'scope': 'once'}])
+                cuts[len(plans) - 1] = k + d
     for pi, plan in enumerate(plans):
         if pi % slices != my_slice:
             continue
         s2 = S.clone(scn)
         s2['faults'] = plan
         s2['origin'] = dict(scn['origin'], fault=plan[0])
+        if pi in cuts:
+            s2['args']['maxfun'] = cuts[pi]
+            s2['origin']['cut'] = cuts[pi]
         if 'faults' not in s2['features']:
             s2['features'] = sorted(set(s2['features'] + ['faults']))
         Hk = sim.run_scenario(s2, probes=opts.get('probes', ()))
@@ -250,4 +266,131 @@ def leg_faultpoints(base_seed, index, opts):
     return res
 
 
-LEGS = {'swarm': leg_swarm, 'cuts': leg_cuts, 'faultpoints': leg_faultpoints}
+# ---------------------------------------------------------------------------------------------------------------
+# internal-seam fault enumeration: the j-th handled linear solve of the interpolation system fails ("singular system")
+# ---------------------------------------------------------------------------------------------------------------
+
+def ifault_set(j_ref, tier):
+    if tier == 'thorough' or j_ref <= 24:
+        return list(range(1, j_ref + 1))
+    js = set(range(1, 13))
+    js.update(range(12, j_ref + 1, max(1, (j_ref - 12) // 10)))
+    js.update(range(max(1, j_ref - 2), j_ref + 1))
+    return sorted(js)
+
+
+def leg_ifaults(base_seed, index, opts):
+    """Per sampled world: fault-free reference run (numbers the linear solves dfols makes inside a LinAlgError handler: model fit,
+    geometry step, choice of the point to replace), then one run per j with the j-th of them failing, then pairs (j, j+d) so that
+    the second failure lands inside the restart the first one triggered."""
+    t0 = time.time()
+    res = new_result()
+    prof = opts['profile']
+    scn = S.draw(base_seed, index, prof, salt=opts.get('salt', 'ifaults'))
+    scn['ifaults'] = []
+    cap = opts.get('ref_budget_cap', 60)
+    eff = S.effective(scn)
+    if eff['maxfun'] > cap or scn['args']['maxfun'] is None:
+        scn['args']['maxfun'] = min(eff['maxfun'], cap)
+    H = sim.run_scenario(scn, probes=opts.get('probes', ()))
+    account(res, H)
+    judge(res, H, opts['oracles'], scn)
+    j_ref = len(H.lin_calls)
+    res['samples'].append(dict(sample_of(scn, H), leg='ifaults', j_ref=j_ref))
+    if H.exc is not None or H.stepcap is not None or H.timeout:
+        res['wall'] = time.time() - t0
+        return res
+    js = ifault_set(j_ref, opts.get('tier', 'quick'))
+    plans = [[{'at': j, 'kind': 'linalg'}] for j in js]
+    for j in js[::3]:
+        for d in (1, 2, 4):
+            plans.append([{'at': j, 'kind': 'linalg'}, {'at': j + d, 'kind': 'linalg'}])
+    for plan in plans:
+        s2 = S.clone(scn)
+        s2['ifaults'] = plan
+        s2['origin'] = dict(scn['origin'], ifault=[f['at'] for f in plan])
+        s2['features'] = S.features(s2)
+        Hk = sim.run_scenario(s2, probes=opts.get('probes', ()))
+        fired = len(Hk.ifaults_fired)
+        account(res, Hk, nontrivial=fired > 0)
+        if fired:
+            res['fault_points'] += 1
+            for (_, site) in Hk.ifaults_fired:
+                _bump(res['stats'], 'linalg_fault_fired@' + site)
+            if any(r[1] > 0 for r in [(r_[0], r_[1]) for r_ in Hk.restarts]):
+                pass
+        judge(res, Hk, opts['oracles'], s2)
+    res['wall'] = time.time() - t0
+    return res
+
+
+# ---------------------------------------------------------------------------------------------------------------
+# target enumeration: the run ends with "objective is sufficiently small" at every record evaluation of a reference run
+# ---------------------------------------------------------------------------------------------------------------
+
+def _set_param(scn, key, value):
+    up = [kv for kv in scn['args']['user_params'] if kv[0] != key]
+    up.append([key, value])
+    scn['args']['user_params'] = up
+
+
+def leg_targets(base_seed, index, opts):
+    """Per sampled world (no regulariser, no averaging): reference run; for every evaluation k that set a new record (objective below
+    everything seen before) re-run with model.abs_tol = F_k, so that the run is ended by the small-objective test exactly there -
+    whatever kind of step requested evaluation k (initialisation, trust-region, geometry, restart, added point): the only exit on
+    which an evaluated point is abandoned *with data* when there is no averaging.  Each such run also with NaN / +inf delivered at
+    evaluation k-1 ("bad value, then the target is reached")."""
+    t0 = time.time()
+    res = new_result()
+    prof = opts['profile']
+    scn = S.draw(base_seed, index, prof, salt=opts.get('salt', 'targets'))
+    scn['faults'] = []
+    cap = opts.get('ref_budget_cap', 60)
+    eff = S.effective(scn)
+    if eff['maxfun'] > cap or scn['args']['maxfun'] is None:
+        scn['args']['maxfun'] = min(eff['maxfun'], cap)
+    _set_param(scn, 'model.abs_tol', 1e-300)
+    _set_param(scn, 'model.rel_tol', 1e-300)
+    scn['features'] = S.features(scn)
+    H = sim.run_scenario(scn, probes=opts.get('probes', ()))
+    account(res, H)
+    judge(res, H, opts['oracles'], scn)
+    res['samples'].append(dict(sample_of(scn, H), leg='targets', nf_ref=len(H.calls)))
+    if H.exc is not None or H.stepcap is not None or H.timeout:
+        res['wall'] = time.time() - t0
+        return res
+    records = []
+    best = float('inf')
+    with np.errstate(all='ignore'):
+        for c in H.calls:
+            if c.reply is None:
+                continue
+            f = float(np.dot(c.reply, c.reply))
+            if np.isfinite(f) and f > 0.0 and (f < best or c.k == 2):      # k = 2: reachable once evaluation 1 is bad
+                records.append((c.k, f))
+            if np.isfinite(f) and f < best:
+                best = f
+    if opts.get('tier', 'quick') != 'thorough' and len(records) > 14:
+        records = records[:8] + records[8::max(1, (len(records) - 8) // 6)]
+    for (k, f) in records:
+        variants = [None] + ([('nan', k - 1), ('+inf', k - 1)] if k >= 2 else [])
+        for var in variants:
+            s2 = S.clone(scn)
+            _set_param(s2, 'model.abs_tol', f * (1.0 + 1e-9))
+            if var is not None:
+                s2['faults'] = [{'at': var[1], 'kind': var[0], 'comp': 'all', 'scope': 'once'}]
+            s2['origin'] = dict(scn['origin'], target=k, fault=var[0] if var else None)
+            s2['features'] = S.features(s2)
+            Hk = sim.run_scenario(s2, probes=opts.get('probes', ()))
+            hit = Hk.soln is not None and 'sufficiently small' in str(getattr(Hk.soln, 'msg', ''))
+            account(res, Hk, nontrivial=hit)
+            if hit:
+                res['cut_points'] += 1
+                if Hk.calls:
+                    _bump(res['stats'], 'target_exit@' + Hk.calls[-1].site)
+            judge(res, Hk, opts['oracles'], s2)
+    res['wall'] = time.time() - t0
+    return res
+
+
+LEGS = {'targets': leg_targets, 'swarm': leg_swarm, 'cuts': leg_cuts, 'faultpoints': leg_faultpoints, 'ifaults': leg_ifaults}
